@@ -362,10 +362,15 @@ class Actor:
                 self.sim.ctx.probe("const_in_outer_scope")
                 if isinstance(self.sim.hugr[p].op, T().ops.CFG):
                     self.sim.ctx.probe("const_under_cfg")
-            # the Const node is the child added just before the LoadConst
-            cn = [c for c in self.sim.hugr.children(self.sim.hugr[n].parent if p is None else p)
-                  if isinstance(self.sim.hugr[c].op, T().ops.Const)][-1]
-            self.sim.consts.append((cn, ty, pidx))
+            # the Const node is whatever feeds the LoadConst's static input (where it was put is for the oracles to judge)
+            srcs = [q.node for q in self.sim.hugr.linked_ports(n.inp(0))]
+            if srcs and isinstance(self.sim.hugr[srcs[0]].op, T().ops.Const):
+                cn = srcs[0]
+                par = self.sim.hugr[cn].parent
+                if par is not None and par.idx != pidx:
+                    self.sim.ctx.probe("const_not_where_the_program_put_it")
+                    pidx = par.idx
+                self.sim.consts.append((cn, ty, pidx))
         self.nodes.append(n)
         self.sim.handle(n, 1, "load")
         return self.add_out(n, [ty])[0]
